@@ -555,8 +555,15 @@ def call_lua_sandbox(
                     if isinstance(arg, (int, float, str)):
                         new_args.append(str(arg))
                     elif isinstance(arg, dict) or lua_type(arg) == "table":
+                        # numbered entries in numeric order (1, 2, ..., 10;
+                        # not "1" < "10" < "2"), then the named ones
                         for k, v in sorted(
-                            arg.items(), key=lambda x: str(x[0])
+                            arg.items(),
+                            key=lambda x: (
+                                (0, x[0], "")
+                                if isinstance(x[0], (int, float))
+                                else (1, 0, str(x[0]))
+                            ),
                         ):
                             new_args.append(str(v))
             name = ctx._canonicalize_parserfn_name(name)
